@@ -506,7 +506,8 @@ func (k *vCtl) reqTriggers() {
 func (k *vCtl) reqPulseLengths() {
 	r := k.c.R
 	type pl struct{ ns, npre int }
-	p := vPick(r, pl{0, 4}, pl{-5, 3}, pl{16, 0}, pl{16, 16}, pl{16, 20}, pl{16, 2}, pl{k.ns, k.npre}, pl{40, 10}, pl{24, 6}, pl{64, 3}, pl{4, 3})
+	p := vPick(r, pl{0, 4}, pl{-5, 3}, pl{16, 0}, pl{16, 16}, pl{16, 20}, pl{16, 2}, pl{k.ns, k.npre}, pl{40, 10}, pl{24, 6}, pl{64, 3}, pl{4, 3},
+		pl{k.ns, k.npre + 1}, pl{k.ns, 3}, pl{k.ns + 8, k.npre}) // also: only one of the two lengths changes
 	want := "ok"
 	switch {
 	case p.ns <= 0 || p.npre <= 0:
